@@ -424,6 +424,11 @@ func executorFindInsertionPoints(ctx *ExecutionContext, resultLock *sync.Mutex, 
 
 			// each value in the result contributes an insertion point
 			for entryI, iEntry := range rootList {
+				// a null entry has nothing to insert into
+				if iEntry == nil {
+					continue
+				}
+
 				resultEntry, ok := iEntry.(map[string]interface{})
 				if !ok {
 					return nil, errors.New("entry in result wasn't a map")
